@@ -373,10 +373,11 @@ class Valuation:
     """Assigns integers to leaf atoms; uninterpreted terms get a value that is a deterministic
     function of (symbol, evaluated arguments), so equal arguments give equal results."""
 
-    def __init__(self, seed: int, assign=None, domain=None, override=None, fields=None):
+    def __init__(self, seed: int, assign=None, domain=None, override=None, fields=None, call_values=None):
         self.seed = seed
         self.override = dict(override or {})  # forces the value of arbitrary (also non-leaf) terms
         self.fields = dict(fields or {})  # (struct, byte offset) -> value, for every instance of the struct
+        self.call_values = call_values or getattr(domain, "call_values", None)  # callee name -> f(hash) -> value
         self.assign = dict(assign or {})
         self.domain = domain  # callable(leaf, rng) -> int | None
         self.rng = random.Random(seed)
@@ -520,7 +521,11 @@ def ev(t, val: Valuation):
                 pass
         args = tuple(_key(ev(x, val)) for x in t[2])
         kws = tuple((a, _key(ev(v, val))) for a, v in t[3])
-        return _h("call", t[1], args, kws)
+        h = _h("call", t[1], args, kws)
+        shaper = val.call_values.get(t[1]) if val.call_values else None
+        if shaper is not None:
+            return shaper(h)  # still a function of the evaluated arguments, but drawn from a chosen range
+        return h
     if k == "attr":
         b = ev(t[1], val)
         if isinstance(b, _CInt) and t[2] == "value":
